@@ -3,7 +3,7 @@
 import json, os
 V = os.path.dirname(os.path.dirname(os.path.abspath(__file__)))
 NOTE = ('Assumes: clang-14 -O1 IR of the kernel TU faithfully compiles the /repo working tree (checked every run by replaying solver models of explored paths '
-        'against a g++ ASan/UBSan build of the same harness); allocation never fails; exception handlers/cleanups not explored; environment models and bounds '
+        'against a g++ ASan/UBSan build of the same harness); allocation never fails; C++ exceptions are unwound through the real landing pads; iostreams, locale, floating point and threads are not executed (stubbed by contract models or outside the claim); environment models and bounds '
         'are listed per harness in the evidence file. Trusted: clang, z3, engine/irsym.py, the reference models written in the harnesses.')
 CLAIMED = {
  'C01': ('bounded symbolic model checking of the registry of total functions: every harness runs the real function on fully symbolic arguments with clang UBSan checks as traps, libstdc++ assertions, '
